@@ -75,6 +75,7 @@ Fixpoint stmt_prot (st : stmt) (P : pset) : option pset * bool :=
       (Some Pf, okc && okb)
   | SReturn _ => (None, true)
   | SReturn2 _ _ => (None, true)
+  | SRetCall _ _ _ => (None, true)
   | SCall2 _ x xe _ _ =>
       let P1 := match x with Some y => premove y P | None => P end in
       (Some (match xe with Some y => premove y P1 | None => P1 end), true)
